@@ -54,13 +54,14 @@ def dumpModel (k : Nat) (m : Model) : String :=
   let tree := if m.rootIssued then showNode (m.rootKids.size + 2) m.rootHdr m.rootKids else "-"
   let idx := ",".intercalate ((sortBy (fun a b => bytesLt a.1 b.1) m.index).map fun e => s!"{hexB e.1}=e{e.2}")
   let refs := ",".intercalate ((sortBy (fun a b => bytesLt a.1 b.1) m.refs).map fun e =>
-    s!"{hexB e.1}={"+".intercalate ((sortBy (· < ·) e.2).map fun i => s!"e{i}")}")
+    s!"{hexB e.1}={"+".intercalate ((sortBy (· < ·) (e.2.filter (· != ghostRef))).map fun i => s!"e{i}")}")
   "M" ++ toString k ++ "{files=[" ++ files ++ "]tree=" ++ tree ++ "index=[" ++ idx ++ "]refs=[" ++ refs ++ "]}"
 
 def dumpWorld (w : World) : String :=
   "ok " ++ String.join ((List.range w.models.length).map fun k => dumpModel k w.models[k]!)
 
-def showIds (l : List Nat) : String :=
+def showIds (l0 : List Nat) : String :=
+  let l := l0.filter (· != ghostRef)
   if l.isEmpty then "ok -" else "ok " ++ ",".intercalate ((sortBy (· < ·) l).map fun i => s!"e{i}")
 
 /-- `Element::path` -/
